@@ -196,30 +196,34 @@ pub(crate) trait ProtocolRequestBuilder {
 #[async_trait]
 impl ProtocolRequestBuilder for crate::Request {
     async fn into_protocol_request(mut self) -> crate::Result<HttpRequest> {
-        let body = if self.is_empty() == Some(false) {
-            self.take_body().into_bytes().await?
-        } else {
-            vec![]
-        };
-
         // The headers live in a randomly seeded hash map. Emit them ordered by name (the
         // values of one name keep their order), so that the same request is always the
         // same sequence of bytes once serialized.
         let mut headers: Vec<_> = self.iter().collect();
         headers.sort_by(|(a, _), (b, _)| a.as_str().cmp(b.as_str()));
 
+        // Read the headers before the body is taken: taking it leaves an empty body behind,
+        // whose MIME type http-types copies into a missing `content-type` header.
+        let headers = headers
+            .into_iter()
+            .flat_map(|(name, values)| {
+                values.iter().map(|value| HttpHeader {
+                    name: name.to_string(),
+                    value: value.to_string(),
+                })
+            })
+            .collect();
+
+        let body = if self.is_empty() == Some(false) {
+            self.take_body().into_bytes().await?
+        } else {
+            vec![]
+        };
+
         Ok(HttpRequest {
             method: self.method().to_string(),
             url: self.url().to_string(),
-            headers: headers
-                .into_iter()
-                .flat_map(|(name, values)| {
-                    values.iter().map(|value| HttpHeader {
-                        name: name.to_string(),
-                        value: value.to_string(),
-                    })
-                })
-                .collect(),
+            headers,
             body,
         })
     }
@@ -266,6 +270,19 @@ impl From<HttpResponse> for crate::ResponseAsync {
 #[cfg(test)]
 mod tests {
     use super::*;
+
+    #[futures_test::test]
+    async fn protocol_request_has_only_the_headers_of_the_request() {
+        let url = "https://example.com".parse().unwrap();
+        let mut req = crate::Request::new(http_types::Method::Post, url);
+        req.set_body("hello");
+        req.remove_header("content-type");
+
+        let req = req.into_protocol_request().await.unwrap();
+
+        assert_eq!(req.headers, vec![]);
+        assert_eq!(req.body, b"hello");
+    }
 
     #[test]
     fn test_http_request_get() {
